@@ -11,7 +11,7 @@ ENV = dict(os.environ, GOFLAGS='-mod=mod', GOPROXY='off')
 def sh(cmd, cwd=None, timeout=1800):
     p = subprocess.run(cmd, shell=True, cwd=cwd, env=ENV, capture_output=True, text=True, timeout=timeout)
     return p.returncode, p.stdout + p.stderr
-patch = os.path.join(mdir, 'patch.diff')
+patch = os.path.join(mdir, 'patch.adapted.diff') if os.path.exists(os.path.join(mdir, 'patch.adapted.diff')) else os.path.join(mdir, 'patch.diff')
 demos = glob.glob(os.path.join(mdir, '*_test.go'))
 res = {'property': prop, 'dir': mdir}
 touched = sorted(set(re.findall(r'^\+\+\+ b/(\S+)', open(patch).read(), re.M)))
